@@ -139,6 +139,14 @@ def main():
             ctx.violation({"history": c["h"], "trace_verdict": vv}, note="H1 trace rejected by SymbolGraph_Trace")
         elif vv and vv["v"].startswith("shape:"):
             ctx.drift += 1
+    # the repository's own tests, run with the H1 hooks on: every registry they build must be a behaviour of the model
+    tests = [] if thorough else ["test/test_ontomatic", "test/test_eql/test_symbol_graph.py", "test/test_eql/test_core/test_rules.py",
+                                 "test/test_ormatic/test_symbol_graph_persistence.py"]
+    for name, (vv, which) in sgcommon.suite_traces(ctx, tests).items():
+        if vv["v"].startswith("prop:"):
+            ctx.violation({"repository_tests": which, "trace_verdict": vv}, note="registry trace of the repository's own tests rejected by SymbolGraph_Trace")
+        elif vv["v"].startswith("shape:"):
+            ctx.drift += 1
     if "__invariant__" in v:
         ctx.violation({"trace_verdict": v["__invariant__"]}, note="registry invariant violated on a recorded trace")
     ctx.assumptions = ["node-index reuse is forced by the histories (rustworkx recycles LIFO); address reuse cannot be forced "
